@@ -5,6 +5,7 @@ def hook(hr, i, op, entry, anoms, ctx):
     if ctx is not None:
         print(i, op[1], op[2], 'OBS', entry['ran'], 'MODEL', ctx['ran'], 'reasons', ctx['reasons'], 'maybe', ctx['maybe'])
         if anoms:
+            print(hr.last_result.err[-3000:])
             for n, r in hr.m.R.items():
                 print('     ', n, 'outver', r.outver, 'seen', r.seen, 'extra', r.extra, 'failed', r.failed, 'rm', r.removed_mark, r.removed_run, hr.m.run)
     else:
